@@ -5,6 +5,7 @@
 #include "ci_types.h"
 #include "ci_protos.h"
 #define C05_CHILD 1
+#define DW_MODEL_ATTRS 1
 #include "dw_model2.h"
 int ci_children(const void *die, void *out_dies, int max)
 {
